@@ -42,6 +42,22 @@ def certOK (T : List (Nat × List EntryQ)) (ri ei pi D P : Nat) (C : List Int) (
         && decide ((B : Rat) ≤ (slack * me) * 2 ^ (P + ((gOf cs m2).length - 1) * D))
     | _ => false
 
+/-- everything `certOK` checks except the interval checker: the piece exists in `T`, `C` is its scaled polynomial,
+`[sl, sh]` covers `[√klo, √khi]·2^D`, and `B` is at most `1.02·max_error` in scaled units -/
+def headOK (T : List (Nat × List EntryQ)) (ri ei pi D P : Nat) (C : List Int) (B sl sh : Int) : Bool :=
+  match piece? T ri ei pi with
+  | none => false
+  | some (m2, cs, klo, khi, me) =>
+    scaleOK D P (gOf cs m2) C
+      && decide (0 ≤ sl) && decide (((sl : Int) : Rat) ^ 2 ≤ klo * 4 ^ D)
+      && decide (0 ≤ sh) && decide (khi * 4 ^ D ≤ ((sh : Int) : Rat) ^ 2)
+      && decide ((B : Rat) ≤ (slack * me) * 2 ^ (P + ((gOf cs m2).length - 1) * D))
+
+/-- the interval checker on one chunk of the subdivision, together with the chunk's end points
+(kernel evaluation of one long subdivision is superlinear in its length, so certificates are checked in chunks) -/
+def chunkOK (C : List Int) (B : Int) (cuts : List Int) (a b : Int) : Bool :=
+  checkAll C B cuts && decide (cuts.head? = some a) && decide (cuts.getLast? = some b) && decide (2 ≤ cuts.length)
+
 /-- every `(row, entry, piece)` index triple of the table -/
 def allPieces (T : List (Nat × List EntryQ)) : List (Nat × Nat × Nat) :=
   (List.range T.length).flatMap fun ri =>
